@@ -67,6 +67,7 @@ def _body_items(body):
         'props': lambda: Parameter(max=50),
         'props2': lambda: Parameter(min=4, unit='V'),
         'ppty': lambda: Parameter('other description', group='gC'),
+        'empty': lambda: Parameter(),          # "override without change"
         'dt': lambda: Parameter(datatype=IntRange(0, 10)),
         'noinh': lambda: Parameter('p fresh', FloatRange(-5, 5), inherit=False),
         'bare': lambda: 7,
@@ -376,7 +377,7 @@ def _run_group_notexts(programs):
 # ------------------------------------------------------------------ random programs (code -> spec)
 
 P_ROOT = ['new', 'newint']
-P_DER = ['props', 'props2', 'ppty', 'dt', 'noinh', 'bare', 'bare3', 'none', 'new']
+P_DER = ['props', 'props2', 'ppty', 'empty', 'dt', 'noinh', 'bare', 'bare3', 'none', 'new']
 Q_DER = ['ppty', 'props', 'bare', 'none']
 V_DER = ['unit', 'lim', 'dt']
 C_DER = ['cmd', 'cprops', 'cgroup', 'method', 'none']
@@ -570,7 +571,7 @@ def run(chk):
     if traces:
         chk.sample({'program': glist[len(glist) // 2][0], 'desc_after_last_op': traces[len(glist) // 2][-1]['desc']})
     # code -> spec: random programs beyond the catalogue
-    n = 400 if quick else 8000
+    n = 300 if quick else 4000
     seeds = [chk.seed * 1000003 + i for i in range(n)]
     rtraces = pool_map(_random_trace, seeds)
     phase('random')
